@@ -21,7 +21,7 @@ ASSUMPTIONS = [
 CASES = {"quick": 8000, "thorough": 300000}
 MIN_CASES = {"quick": 3000, "thorough": 60000}
 REQUIRED_CLASSES = ["stog", "near_gap", "near_overhang", "near_overlap", "dup_trunk", "dup_branch", "bag", "equal_area"]
-REQUIRED_COUNTERS = ["calls_judged", "judged_true", "judged_false", "roles_checked", "identity_checked", "via:netlist", "via:module", "via:direct"]
+REQUIRED_COUNTERS = ["calls_judged", "judged_true", "judged_false", "roles_checked", "identity_checked", "via:netlist", "via:module", "via:direct", "netlist_kind:soft", "netlist_kind:hard", "netlist_kind:fixed"]
 
 _g = None
 _mod = None
@@ -245,10 +245,18 @@ def check(case, ctx):
             g.Rectangle.set_epsilon(1e-12 * smallest)
         order = [specs[k] for k in perm]
         if via == "netlist":
-            doc = {"Modules": {"M": {"area": sum(s[2] * s[3] for s in order), "rectangles": [list(s) for s in order]}}}
+            kind = ["soft", "hard", "fixed"][case["pseed"] % 3]
+            if kind == "soft":
+                doc = {"Modules": {"M": {"area": sum(s[2] * s[3] for s in order), "rectangles": [list(s) for s in order]}}}
+            else:
+                doc = {"Modules": {"M": {kind: True, "rectangles": [list(s) for s in order]}}}
+            ctx.count("netlist_kind:" + kind)
             ok, nl = ctx.call(_net.Netlist, doc)
+            if not ok and kind != "soft" and "overlapping" in str(nl):
+                ctx.count("hard_module_with_overlapping_rectangles_refused")     # C05's business, not C06's
+                return
             if not ok:
-                ctx.violation("netlist_raised", f"loading a soft module with rectangles {order} raised {type(nl).__name__}: {nl}")
+                ctx.violation("netlist_raised", f"loading a {kind} module with rectangles {order} raised {type(nl).__name__}: {nl}")
                 return
             m = nl.modules[0]
             objs = m.rectangles          # the list the recogniser reordered
